@@ -106,8 +106,22 @@ mut("C15", "default_category_memoised_per_unit", UD, "        try:\n            
 mut("C15", "getcategoryinfo_autocreates_missing_category", UD, "        try:\n            return self.categories_to_quantity_types[category]\n        except KeyError:\n            categories_str = \"\"", "        try:\n            return self.categories_to_quantity_types[category]\n        except KeyError:\n            if category in self.quantity_types:\n                return self.AddCategory(category, category)\n            categories_str = \"\"")
 mut("C15", "memo_keyed_by_unit_only", UD, "        key = (category, unit)\n        try:\n            # i.e.: if not valid", "        key = (self.categories_to_quantity_types[category].quantity_type if category in self.categories_to_quantity_types else category, unit)\n        try:\n            # i.e.: if not valid")
 mut("C15", "unit_names_cached_per_type", UD, "        return [x.name for x in self.GetInfos(quantity_type)]", "        memo = self.__dict__.setdefault('_names_memo', {})\n        if quantity_type not in memo:\n            memo[quantity_type] = [x.name for x in self.GetInfos(quantity_type)]\n        return memo[quantity_type]")
-mut("C15", "alias_cached_across_override", QT, "            # Cache it with None category too.\n            quantities_cache[key] = quantity\n            return quantity", "            # Cache it with None category too.\n            quantities_cache[key] = quantity\n            unit_database.__dict__.setdefault('_alias', {})[key] = quantity\n            return quantity")
 mut("C15", "obtainquantity_consults_stale_alias_table", QT, "    key = (category, unit, unknown_unit_caption)  # type:ignore[assignment]\n    try:\n        return quantities_cache[key]\n    except KeyError:\n        pass  # Just go on with the regular flow.", "    key = (category, unit, unknown_unit_caption)  # type:ignore[assignment]\n    try:\n        return quantities_cache[key]\n    except KeyError:\n        pass  # Just go on with the regular flow.\n    _stale = unit_database.__dict__.setdefault('_by_unit', {})\n    if category is None and isinstance(unit, str) and unknown_unit_caption is None:\n        if unit in _stale:\n            return _stale[unit]\n        _q = Quantity(unit_database.GetDefaultCategory(unit) or '', unit) if unit_database.GetDefaultCategory(unit) else None\n        if _q is not None:\n            _stale[unit] = _q\n            return _q")
+
+# ---------------------------------------------------------------------------------------- C17
+mut("C17", "setcurrent_keeps_listening_to_previous", USM, "        if self._current is not None:\n            self._current.on_default_unit.Unregister(self._CategoryUnitChange)\n\n        self._current = unit_system", "        self._current = unit_system")
+mut("C17", "add_does_not_select_when_none_current", USM, "        if self._current is None:\n            self.SetCurrent(unit_system)\n\n        return unit_system", "        if self._current is None and len(self._unit_systems) == 1:\n            self.SetCurrent(unit_system)\n\n        return unit_system")
+mut("C17", "remove_keeps_removed_current", USM, "            if available:\n                self.SetCurrent(available[0])\n            else:\n                self.SetCurrent(None)", "            if available:\n                self.SetCurrent(available[0])")
+mut("C17", "issubset_for_issuperset", USM, "        return set(current_categories).issuperset(required_categories_set)", "        return set(current_categories).issubset(required_categories_set) or set(current_categories).issuperset(required_categories_set)")
+mut("C17", "template_copy_not_deep", USM, "                units_mapping = deepcopy(template_units_mapping)", "                units_mapping = template_units_mapping")
+mut("C17", "unitsystem_keeps_mapping_by_reference", US, "        self._units_mapping = dict(units_mapping)", "        self._units_mapping = units_mapping")
+mut("C17", "getnewid_returns_used_id", USM, "        while new_id in ids:\n            count += 1\n            new_id = \"%s %d\" % (\"system\", count)\n        return new_id", "        return new_id")
+mut("C17", "convert_reads_template", USM, "        current = self.current\n        if current is None or current.GetDefaultUnit(category) is None:\n            return value, unit", "        current = self._unit_system_template or self.current\n        if current is None or current.GetDefaultUnit(category) is None:\n            return value, unit")
+mut("C17", "remove_assert_reintroduced", USM, "        if self._current is not None and self._current.GetId() == unit_system_id:", "        assert self._current is not None\n        if self._current.GetId() == unit_system_id:")
+mut("C17", "duplicate_id_check_after_insert", USM, "        if id in self._unit_systems:\n            raise UnitSystemIDError(id)\n\n        if self._unit_system_template is not None:", "        if id in self._unit_systems and self._unit_systems[id].GetCaption() != caption:\n            raise UnitSystemIDError(id)\n\n        if self._unit_system_template is not None:")
+mut("C17", "setcurrent_same_system_double_register_notifies_twice", USM, "        if self._current is not None:\n            self._current.on_default_unit.Register(self._CategoryUnitChange)\n            self.on_current(self._current)", "        if self._current is not None:\n            self._current.on_default_unit.Register(self._CategoryUnitChange)\n            self._current.on_default_unit.Register(self.on_unit_changed)\n            self.on_current(self._current)")
+mut("C17", "removecategory_notifies_before_delete_and_on_missing", US, "        try:\n            del self._units_mapping[category]\n            self.on_default_unit(category, None)\n        except KeyError:", "        try:\n            self.on_default_unit(category, None)\n            del self._units_mapping[category]\n        except KeyError:")
+mut("C17", "template_rejected_after_assignment", USM, "        if invalid_unit_systems:\n            # At least one of the existing unit system is not valid for this template. Notify that\n            # the template is invalid\n            raise InvalidTemplateError(invalid_unit_systems)\n\n        # NOTE: 'tr' for the caption (Unit system template) was removed.\n        self._unit_system_template = self._default_unit_system_class(\n            \"template\", \"Unit system template\", units_mapping, True\n        )", "        previous = self._unit_system_template\n        self._unit_system_template = self._default_unit_system_class(\n            \"template\", \"Unit system template\", units_mapping, True\n        )\n        if invalid_unit_systems:\n            raise InvalidTemplateError(invalid_unit_systems)")
 
 
 def run_one(prop, name, file, old, new, runs, suite):
